@@ -62,7 +62,16 @@ def frame_jobs(rep, tier):
             continue
         nprog += 1
         rep.function(f"EBPF program `{stmt}`: assemble() bytes", info["code"].hex())
-        env = Env(ctx=None, maps={77: MapModel("array", 4, info["map_size"]), 78: MapModel("hash", 1, 8)})
+        import ebpfcat.hashmap as HM
+        hfd = {"hmap": None, "table": None}
+        # which fd the program class got for its HashMap / Dict (order of creation)
+        hfd = dict(zip(info.get("map_order", ("hmap", "table")), (78, 79)))
+        ks, vs = info["dict_sizes"]
+        maps = {77: MapModel("array", 4, info["map_size"]),
+                hfd.get("hmap", 78): MapModel("hash", 1, 8),
+                hfd.get("table", 79): MapModel("hash", ks, vs)}
+        ctx0 = z3.BitVec("r1_0", 64)
+        env = Env(ctx=None, maps=maps, regs={1: ctx0})
         res = bpf_run(info["code"], env)
         if res.aborted:
             rep.out_of_reach(f"{stmt}: aborted paths")
@@ -79,6 +88,14 @@ def frame_jobs(rep, tier):
         for path in res.paths:
             if path.exit != "EXIT":
                 continue
+            # registers the program still owns keep their value: r1 (the
+            # context pointer) is never assigned by these statements
+            if path.ip != len(info["code"]) // 8 - 1:
+                continue      # an early exit (map lookup returned NULL): nothing is read afterwards
+            r1 = path.regs[1]
+            add("saved_registers_are_restored[r1]", path.pc,
+                z3.BoolVal(False) if r1 is None or not z3.is_bv(r1) else r1 == ctx0,
+                "r1 (still owned by the program) has its value from before the statement")
             fstack = path.regions["stack"].mem
             for n, (fmt, rel) in info["locals"].items():
                 off = A.stack_off(rel)
@@ -103,7 +120,7 @@ def frame_jobs(rep, tier):
             for n, (fmt, count) in info["hashvars"].items():
                 if n == dest:
                     continue
-                rname = hash_region_name(78, bytes([count]))
+                rname = hash_region_name(hfd.get("hmap", 78), bytes([count]))
                 if rname in path.regions and path.regions[rname].mem is not None:
                     init = z3.Array(rname + "_init", z3.BitVecSort(64), z3.BitVecSort(8))
                     add(f"hash_variable_unchanged[{n}]", path.pc,
